@@ -106,6 +106,7 @@ def run(ck):
     r = ck.tlc('Crossings', 'SPECIFICATION Spec\nCONSTANTS Q = 3\n Fams = {"count"}\nINVARIANT Dump\n', workers=1, coverage=False)
     cases = [c for c in r.cases if c['count'] >= 0]
     rnd.shuffle(cases)
+    nax = 0
     for c in cases[:150 if quick else 1500]:
         pr = c['pr']
         a = cm.mk([x / 2.0 for x in pr['x1']], [y / 2.0 for y in pr['y1']])
@@ -113,6 +114,38 @@ def run(ck):
         ck.case(fp=('count', str(pr)), nontrivial=c['count'] > 0)
         report_case(ck, 'count', a, b, [], {'pr': pr, 'count': c['count']}, exact_count=c['count'])
         report_case(ck, 'count swapped', b, a, [], {'pr': pr, 'count': c['count']}, exact_count=c['count'])
+        # the same configuration spelled with Beziers only, so that it goes through bezier_intersections: the quadratic degree-elevated to a cubic
+        # (exactly vanishing third difference) and the line as a quadratic with equally spaced collinear control points.  All coordinates x 3/2: exact.
+        ex = lambda v: [3 * v[0], v[0] + 2 * v[1], 2 * v[1] + v[2], 3 * v[2]]
+        a3 = cm.mk([x / 2.0 for x in ex(pr['x1'])], [y / 2.0 for y in ex(pr['y1'])])
+        xm = (pr['x2'][0] + pr['x2'][1]) / 2.0
+        bq = cm.mk([1.5 * pr['x2'][0], 1.5 * xm, 1.5 * pr['x2'][1]], [1.5 * pr['y2'][0]] * 3)
+        # ... turned and stretched by 3+4j (exact) so that the straight one is not axis-parallel; the axis-parallel spelling itself is a recorded finding
+        rot = lambda sg: type(sg)(*[w * (3 + 4j) for w in sg.bpoints()])
+        for x_, y_, tg in ((rot(a3), rot(bq), 'count as Beziers'), (rot(bq), rot(a3), 'count as Beziers swapped')) + (((a3, bq, 'count as Beziers, axis-parallel'),) if nax < 12 else ()):
+            nax += 'axis' in tg
+            ck.case(fp=(tg, str(pr)), nontrivial=c['count'] > 0)
+            try:
+                res = x_.intersect(y_)
+            except Exception as e:      # noqa
+                res = e
+            clusters = []
+            if not isinstance(res, Exception):
+                for u, v in res:
+                    if not any(abs(u - cu) < 1e-4 and abs(v - cv) < 1e-4 for cu, cv in clusters):
+                        clusters.append((u, v))
+            if isinstance(res, Exception) or len(clusters) != c['count']:
+                axp = 'axis-parallel' in tg and not isinstance(res, Exception) and len(clusters) < c['count']
+                ck.disagree(key='bezier_intersections/' + ('axis-parallel-straight-bezier-crossing-lost' if axp else 'wrong-number-of-crossings'),
+                            site='svgpathtools/bezier.py:bezier_intersections',
+                            what='[%s] %r x %r: %s distinct crossings reported, exact number %d' % (tg, x_, y_, res if isinstance(res, Exception) else len(clusters), c['count']),
+                            case={'pr': pr, 'count': c['count'], 'bez': True}, expected=c['count'], observed=repr(res), driver='completeness')
+                break
+            if len(res) != len(clusters):
+                ck.disagree(key='bezier_intersections/duplicate-crossing', site='svgpathtools/bezier.py:bezier_intersections',
+                            what='[%s] %r x %r: %d crossings reported as %d pairs' % (tg, x_, y_, len(clusters), len(res)),
+                            case={'pr': pr, 'count': c['count'], 'bez': True}, expected=c['count'], observed=[(float(u), float(v)) for u, v in res], driver='completeness')
+                break
     ck.sample('count', cases[0])
     # the recorded example of the open duplicate finding is replayed on every run (so the KNOWN-FINDING line does not depend on the seed)
     za = [1 + 4j, 1 + 0j, 4 + 4j, -3j]
